@@ -21,6 +21,8 @@ import ast
 import time
 
 NONE, FALSE, TRUE, MISSING = -1, 0, 1, -2
+STACK_DEPTH = 4
+TID_BASE = 200
 
 
 class Unsupported(Exception):
@@ -81,6 +83,44 @@ class Mod:
       if isinstance(n, ast.FunctionDef) and n.name == name:
         return n
     return None
+
+  def prop(self, cls, name, setter=False):
+    """The getter (or setter) of a property `name` defined in class `cls`, else None."""
+    for n in self.classes[cls].body:
+      if isinstance(n, ast.FunctionDef) and n.name == name:
+        decos = [ast.unparse(d) for d in n.decorator_list]
+        if not setter and 'property' in decos:
+          return n
+        if setter and f'{name}.setter' in decos:
+          return n
+    return None
+
+  def stack_attrs(self, cls):
+    """{attr: per_instance} for attributes initialised with an empty list.  A list created at class level is ONE
+    object shared by all instances and - for a threading.local subclass - by all threads; a list created in __init__
+    (or by a dataclass default_factory) exists once per instance / per thread."""
+    out = {}
+    c = self.classes[cls]
+    for n in c.body:
+      tgt = val = None
+      if isinstance(n, ast.Assign) and isinstance(n.targets[0], ast.Name):
+        tgt, val = n.targets[0].id, n.value
+      elif isinstance(n, ast.AnnAssign) and isinstance(n.target, ast.Name) and n.value is not None:
+        tgt, val = n.target.id, n.value
+      if tgt is None:
+        continue
+      if isinstance(val, ast.List) and not val.elts:
+        out[tgt] = False
+      elif isinstance(val, ast.Call) and 'field' in ast.unparse(val.func) and \
+          any(k.arg == 'default_factory' and ast.unparse(k.value) == 'list' for k in val.keywords):
+        out[tgt] = True
+    init = self.method(cls, '__init__')
+    if init is not None:
+      for n in ast.walk(init):
+        if isinstance(n, ast.Assign) and isinstance(n.targets[0], ast.Attribute) and \
+            ast.unparse(n.targets[0].value) == 'self' and isinstance(n.value, ast.List) and not n.value.elts:
+          out[n.targets[0].attr] = True
+    return out
 
 
 def const_value(node):
@@ -143,6 +183,17 @@ class Compiler:
     loc = (mod.short, name, sub)
     if loc in self.locs:
       return loc
+    if kind[0] == 'obj' and sub in mod.stack_attrs(kind[1]):
+      per_instance = mod.stack_attrs(kind[1])[sub]
+      cells = [(mod.short, name, f'{sub}#len')] + [(mod.short, name, f'{sub}#{j}') for j in range(STACK_DEPTH)]
+      for c in cells:
+        self.locs[c] = 0
+        if per_instance and mod.is_thread_local(kind[1]):
+          self.thread_local.add(c)
+      self.locs[loc] = 0                       # the base name itself stands for the list object (never read)
+      if per_instance and mod.is_thread_local(kind[1]):
+        self.thread_local.add(loc)
+      return loc
     if kind[0] == 'obj':
       d = mod.attr_defaults(kind[1])
       if sub not in d:
@@ -180,6 +231,9 @@ class Compiler:
       if isinstance(base, ast.Name) and base.id in env and env[base.id][0] == 'global':
         base = ast.Name(id=env[base.id][1])
       if isinstance(base, ast.Name) and base.id in mod.globals and mod.globals[base.id][0] == 'obj':
+        getter = mod.prop(mod.globals[base.id][1], node.attr)
+        if getter is not None:
+          return self.inline(getter, [('global', base.id)], {}, mod, node.lineno)
         t = self.tmp()
         self.emit('load', t, self.declare(mod, base.id, node.attr), node.lineno)
         return ('tmp', t)
@@ -206,6 +260,8 @@ class Compiler:
       return ('add', self.expr(node.left, env, mod), self.expr(node.right, env, mod))
     if isinstance(node, ast.Subscript):
       return self.subscript_load(node, env, mod)
+    if isinstance(node, ast.IfExp):
+      return ('ite', self.expr(node.test, env, mod), self.expr(node.body, env, mod), self.expr(node.orelse, env, mod))
     if isinstance(node, ast.Call):
       return self.call(node, env, mod)
     raise Unsupported('expression ' + ast.unparse(node)[:60])
@@ -240,9 +296,33 @@ class Compiler:
     self.ops[br][3] = self.here()
     return ('tmp', out)
 
+  def stack_base(self, node, env, mod):
+    """loc of the list behind `<module-level object>.<list attribute>`, else None."""
+    if not isinstance(node, ast.Attribute):
+      return None
+    base = node.value
+    if isinstance(base, ast.Name) and base.id in env and env[base.id][0] == 'global':
+      base = ast.Name(id=env[base.id][1])
+    if isinstance(base, ast.Name) and base.id in mod.globals and mod.globals[base.id][0] == 'obj' and \
+        node.attr in mod.stack_attrs(mod.globals[base.id][1]):
+      return self.declare(mod, base.id, node.attr)
+    return None
+
   def call(self, node, env, mod):
     f = node.func
     fname = ast.unparse(f)
+    if fname in ('threading.get_ident', 'get_ident') and not node.args:
+      return ('tid',)
+    if isinstance(f, ast.Attribute) and f.attr == 'pop' and not node.args:
+      sb = self.stack_base(f.value, env, mod)
+      if sb is not None:
+        t = self.tmp()
+        self.emit('pop', t, sb, node.lineno)           # list.pop(): one C-level step under the GIL
+        br = self.emit('br', ('eq', ('tmp', t), ('const', MISSING)), None, None, node.lineno)
+        self.ops[br][2] = self.here()
+        self.raise_('IndexError', node.lineno)
+        self.ops[br][3] = self.here()
+        return ('tmp', t)
     # next(counter) / next(obj with __next__)
     if fname == 'next' and len(node.args) == 1 and isinstance(node.args[0], ast.Name):
       g = node.args[0].id
@@ -300,6 +380,12 @@ class Compiler:
     for st in stmts:
       self.stmt(st, env, mod)
 
+  def run_finally(self, h):
+    if callable(h['finally']):
+      h['finally']()
+    else:
+      self.block(h['finally'], h['env'], h['mod'])
+
   def raise_(self, kind, lineno):
     """Compile-time dispatch: jump into the innermost matching handler, running finally blocks on the way."""
     i = len(self.handlers) - 1
@@ -308,7 +394,7 @@ class Compiler:
       if 'finally' in h:
         saved = self.handlers
         self.handlers = self.handlers[:i]
-        self.block(h['finally'], h['env'], h['mod'])
+        self.run_finally(h)
         self.handlers = saved
       if 'except' in h:
         for names, pending in h['except']:
@@ -333,6 +419,11 @@ class Compiler:
     if isinstance(st, ast.Expr):
       # self[param].append(entry) -> record the history entry
       v = st.value
+      if isinstance(v, ast.Call) and isinstance(v.func, ast.Attribute) and v.func.attr == 'append' and v.args and \
+          self.stack_base(v.func.value, env, mod) is not None:
+        e = self.expr(v.args[0], env, mod)
+        self.emit('push', self.stack_base(v.func.value, env, mod), e, st.lineno)   # list.append(): one C-level step
+        return
       if isinstance(v, ast.Call) and isinstance(v.func, ast.Attribute) and v.func.attr == 'append' and v.args:
         e = self.expr(v.args[0], env, mod)
         self.emit('event', e, st.lineno)       # <history list>.append(entry): records the entry's sequence id
@@ -366,6 +457,12 @@ class Compiler:
         if isinstance(base, ast.Name) and base.id in env and env[base.id][0] == 'global':
           base = ast.Name(id=env[base.id][1])
         if isinstance(base, ast.Name) and base.id in mod.globals and mod.globals[base.id][0] == 'obj':
+          setter = mod.prop(mod.globals[base.id][1], tgt.attr, setter=True)
+          if setter is not None:
+            self.inline(setter, [('global', base.id), val], {}, mod, st.lineno)
+            return
+          if mod.prop(mod.globals[base.id][1], tgt.attr) is not None:
+            raise Unsupported(f'assignment to read-only property {tgt.attr}')
           self.emit('store', self.declare(mod, base.id, tgt.attr), val, st.lineno)
           return
       if isinstance(tgt, ast.Subscript):
@@ -406,7 +503,7 @@ class Compiler:
         if 'finally' in h:
           saved = self.handlers
           self.handlers = self.handlers[:i]
-          self.block(h['finally'], h['env'], h['mod'])
+          self.run_finally(h)
           self.handlers = saved
         i -= 1
       if i < 0:
@@ -455,7 +552,31 @@ class Compiler:
     so that the manager's try / finally frames are on the handler stack while the body is compiled."""
     fn = mod.funcs[fname]
     if not any(ast.unparse(d).endswith('contextmanager') for d in fn.decorator_list):
-      raise Unsupported(f'{fname} is not a contextlib.contextmanager')
+      # a function returning an object with __enter__ / __exit__: a module-level instance, or a fresh stateless one
+      rets = [n for n in ast.walk(fn) if isinstance(n, ast.Return)]
+      body = [n for n in fn.body if not (isinstance(n, ast.Expr) and isinstance(n.value, ast.Constant))]
+      cls = gname = None
+      if len(rets) == 1 and len(body) == 1 and rets[0].value is not None:
+        v = rets[0].value
+        if isinstance(v, ast.Name) and mod.globals.get(v.id, ('',))[0] == 'obj':
+          cls, gname = mod.globals[v.id][1], v.id
+        elif isinstance(v, ast.Call) and isinstance(v.func, ast.Name) and v.func.id in mod.classes and not v.args and \
+            not v.keywords and not mod.attr_defaults(v.func.id) and not mod.stack_attrs(v.func.id):
+          cls, gname = v.func.id, None
+      if cls is None or mod.method(cls, '__enter__') is None or mod.method(cls, '__exit__') is None:
+        raise Unsupported(f'{fname} is neither a contextlib.contextmanager nor returns an object with __enter__/__exit__')
+      me = ('global', gname) if gname else ('const', NONE)
+      exit_fn = mod.method(cls, '__exit__')
+      nargs = len(exit_fn.args.args) - 1
+
+      def do_exit():
+        self.inline(exit_fn, [me] + [('const', NONE)] * nargs, {}, mod, exit_fn.lineno)
+      self.inline(mod.method(cls, '__enter__'), [me], {}, mod, fn.lineno)
+      self.handlers.append({'finally': do_exit, 'env': {}, 'mod': mod})
+      body_fn()
+      self.handlers.pop()
+      do_exit()                                # normal completion (__exit__ returning a true value is not modelled)
+      return
     n_yield = sum(isinstance(n, ast.Yield) for n in ast.walk(fn))
     if n_yield != 1:
       raise Unsupported(f'{fname}: expected exactly one yield, found {n_yield}')
@@ -493,8 +614,10 @@ class System:
     self.line_granular = True
 
   def visible(self, o):
-    if o[0] in ('load', 'fetchadd'):
+    if o[0] in ('load', 'fetchadd', 'pop'):
       return o[2] not in self.tl
+    if o[0] == 'push':
+      return o[1] not in self.tl
     if o[0] == 'store':
       return o[1][0] != 'tmp' and o[1] not in self.tl
     return False
@@ -502,7 +625,7 @@ class System:
   def bmc(self, K=None, timeout_ms=120000):
     import z3
     T = self.T
-    tmps = sorted({o[1] for p in self.progs for o in p if o[0] in ('load', 'fetchadd')} |
+    tmps = sorted({o[1] for p in self.progs for o in p if o[0] in ('load', 'fetchadd', 'pop')} |
                   {o[1][1] for p in self.progs for o in p if o[0] == 'store' and o[1][0] == 'tmp'})
     obs_names = sorted({o[1] for p in self.progs for o in p if o[0] == 'obs'})
     tl_locs = [l for l in self.locs if l in self.tl]
@@ -537,7 +660,30 @@ class System:
         return ev(e[1], st) + 1000
       if k == 'entry':
         return ev(e[1], st)
+      if k == 'tid':
+        return st[('tid',)]
+      if k == 'ite':
+        return z3.If(truth(ev(e[1], st)), ev(e[2], st), ev(e[3], st))
       raise Unsupported(f'expression node {k}')
+
+    def cells(base):
+      return (base[0], base[1], f'{base[2]}#len'), [(base[0], base[1], f'{base[2]}#{j}') for j in range(STACK_DEPTH)]
+
+    def stack_push(get, put, base, val, guard=None):
+      ln_loc, slots = cells(base)
+      ln = get(ln_loc)
+      for j, c in enumerate(slots):
+        put(c, z3.If(ln == j, val, get(c)))
+      put(ln_loc, ln + 1)
+
+    def stack_pop(get, put, base):
+      ln_loc, slots = cells(base)
+      ln = get(ln_loc)
+      out = z3.IntVal(MISSING)                 # popping an empty (or over-deep) list: MISSING -> IndexError
+      for j, c in enumerate(slots):
+        out = z3.If(ln == j + 1, get(c), out)
+      put(ln_loc, z3.If(ln > 0, ln - 1, ln))
+      return out
 
     def apply_private(o, st):
       """Effect of a thread-private operation on the private state (dict of z3 terms)."""
@@ -552,6 +698,10 @@ class System:
       elif kind == 'fetchadd':
         st[('tmp', o[1])] = st[('tl', o[2])]
         st[('tl', o[2])] = st[('tl', o[2])] + 1
+      elif kind == 'push':
+        stack_push(lambda c: st[('tl', c)], lambda c, v: st.__setitem__(('tl', c), v), o[1], ev(o[2], st))
+      elif kind == 'pop':
+        st[('tmp', o[1])] = stack_pop(lambda c: st[('tl', c)], lambda c, v: st.__setitem__(('tl', c), v), o[2])
       elif kind == 'event':
         v = ev(o[1], st)
         for j in range(self.MAX_EV):
@@ -615,6 +765,7 @@ class System:
         init[('obs', n)] = z3.IntVal(-9)
       for l in tl_locs:
         init[('tl', l)] = z3.IntVal(self.locs[l])
+      init[('tid',)] = z3.IntVal(TID_BASE + i)
       init = run_private(self.progs[i], 0, init)
       for key in priv_keys:
         s.add(S[0][(i, key)] == z3.simplify(init[key]))
@@ -646,6 +797,7 @@ class System:
           here = z3.And(me, A[(i, ('pc',))] == v)
           o = prog[v]
           st = {key: A[(i, key)] for key in priv_keys}
+          st[('tid',)] = z3.IntVal(TID_BASE + i)
           # the visible operation itself
           if o[0] == 'load':
             st[('tmp', o[1])] = A[('sh', o[2])]
@@ -654,6 +806,13 @@ class System:
           elif o[0] == 'fetchadd':
             st[('tmp', o[1])] = A[('sh', o[2])]
             shared_new[o[2]] = z3.If(here, A[('sh', o[2])] + 1, shared_new[o[2]])
+          elif o[0] == 'push':
+            stack_push(lambda c: A[('sh', c)],
+                       lambda c, val, here=here: shared_new.__setitem__(c, z3.If(here, val, shared_new[c])), o[1], ev(o[2], st))
+          elif o[0] == 'pop':
+            st[('tmp', o[1])] = stack_pop(lambda c: A[('sh', c)],
+                                          lambda c, val, here=here: shared_new.__setitem__(c, z3.If(here, val, shared_new[c])),
+                                          o[2])
           st = run_private(prog, v + 1, st)
           s.add(z3.Implies(here, z3.And([B[(i, key)] == st[key] for key in priv_keys])))
       for l in sh_locs:
@@ -691,7 +850,7 @@ def _static(e):
   k = e[0]
   if k == 'const':
     return e[1]
-  if k in ('tmp', 'entry', 'global'):
+  if k in ('tmp', 'entry', 'global', 'tid', 'ite'):
     return None
   vals = [_static(x) for x in e[1:]]
   if any(v is None for v in vals):
